@@ -253,7 +253,7 @@ def _drive(sim, plan):
         if b[1] < due - S.EPS:
           raise Violation("early-wake", "task %d step %d resumed at %.6f, "
                           "requested %.6f" % (tno, b[0], b[1] - t0, due - t0))
-        if b[1] > max(due, a[1]) + CYCLE_MAX + 0.3 + S.EPS:
+        if b[1] > max(due, a[1]) + LATE + S.EPS:
           raise Violation("late-wake", "task %d step %d resumed %.3f s after "
                           "its requested time" % (tno, b[0], b[1] - due))
   for no, (tm, st) in timers.items():
